@@ -1,1 +1,112 @@
-// witness scenarios (public API only)
+// Witness scenarios for the falsifier stage (DESIGN.md section 6).  Each #[test] is an
+// executable oracle of a *property* over the public API at boundary parameters.  They run
+// only after a Verus/Kani obligation has failed, to attach a concrete failing input to the
+// VIOLATION (or to confirm a known finding); they never make a check pass.
+#![allow(dead_code, unused_imports)]
+use acpi_tables::aml::*;
+use acpi_tables::{Aml, AmlSink};
+use std::panic::{catch_unwind, AssertUnwindSafe};
+
+fn ser(a: &dyn Aml) -> Vec<u8> {
+    let mut v = Vec::new();
+    a.to_aml_bytes(&mut v);
+    v
+}
+fn refuses<F: FnOnce() -> Vec<u8>>(f: F) -> Result<(), Vec<u8>> {
+    match catch_unwind(AssertUnwindSafe(f)) {
+        Err(_) => Ok(()),
+        Ok(b) => Err(b),
+    }
+}
+fn pkg_decode(b: &[u8]) -> (usize, usize) {
+    let follow = (b[0] >> 6) as usize;
+    if follow == 0 {
+        return ((b[0] & 0x3f) as usize, 1);
+    }
+    let mut v = (b[0] & 0x0f) as usize;
+    for i in 0..follow {
+        v |= (b[1 + i] as usize) << (4 + 8 * i);
+    }
+    (v, follow + 1)
+}
+struct Raw(Vec<u8>);
+impl Aml for Raw {
+    fn to_aml_bytes(&self, sink: &mut dyn AmlSink) {
+        sink.vec(&self.0);
+    }
+}
+fn path_n(n: usize) -> String {
+    (0..n).map(|i| format!("S{:03}", i % 1000)).collect::<Vec<_>>().join(".")
+}
+
+// ---- C06
+#[test]
+fn c06_power_resource_opcode() {
+    let b = ser(&PowerResource::new("PWR0".into(), 1, 2, vec![]));
+    assert_eq!(&b[0..2], &[0x5b, 0x84], "DefPowerRes := ExtOpPrefix(0x5B) 0x84 ...: got {:02x?}", &b[..2]);
+    let (len, w) = pkg_decode(&b[2..]);
+    assert_eq!(len, b.len() - 2, "PkgLength");
+    assert_eq!(&b[2 + w..2 + w + 4], b"PWR0");
+}
+
+// ---- C10
+#[test]
+fn c10_register_length_field() {
+    use acpi_tables::gas::*;
+    let b = ser(&Register::new(GAS::new(AddressSpace::SystemMemory, 32, 0, AccessSize::DwordAccess, 0x1000)));
+    assert_eq!(b[0], 0x82);
+    let declared = u16::from_le_bytes([b[1], b[2]]) as usize;
+    assert_eq!(declared, b.len() - 3, "Generic Register Descriptor length field {} but {} payload bytes follow", declared, b.len() - 3);
+}
+
+// ---- C18
+#[test]
+fn c18_path_256_segments_refused() {
+    let p = Path::new(&path_n(256));
+    let r = refuses(|| ser(&p));
+    assert!(r.is_ok(), "256-segment path returned bytes with SegCount {:?}", r.err().map(|b| b[1]));
+}
+#[test]
+fn c18_package_256_elements_refused() {
+    let one = 1u8;
+    let kids: Vec<&dyn Aml> = (0..256).map(|_| &one as &dyn Aml).collect();
+    let r = refuses(|| ser(&Package::new(kids)));
+    assert!(r.is_ok(), "256-element package returned NumElements {:?}", r.err().map(|b| b[3]));
+}
+#[test]
+fn c18_package_builder_256_elements_refused() {
+    let mut pb = PackageBuilder::new();
+    for _ in 0..256 {
+        pb.add_element(&1u8);
+    }
+    let r = refuses(|| ser(&pb));
+    assert!(r.is_ok(), "256-element PackageBuilder returned bytes");
+}
+#[test]
+fn c18_method_8_args_refused() {
+    let r = refuses(|| ser(&Method::new("MTH0".into(), 8, false, vec![])));
+    assert!(r.is_ok(), "Method with 8 arguments returned flags {:?}", r.err());
+}
+#[test]
+fn c18_address_space_overflowing_range_refused() {
+    let r = refuses(|| ser(&AddressSpace::<u16>::new_io(0, 0xffff, None)));
+    assert!(r.is_ok(), "u16 range 0..=0xffff (size 0x10000) returned bytes {:02x?}", r.err());
+    let r = refuses(|| ser(&AddressSpace::<u64>::new_memory(AddressSpaceCacheable::NotCacheable, true, 0, u64::MAX, None)));
+    assert!(r.is_ok(), "u64 range 0..=MAX returned bytes");
+    let r = refuses(|| ser(&AddressSpace::<u32>::new_memory(AddressSpaceCacheable::NotCacheable, true, 5, 4, None)));
+    assert!(r.is_ok(), "min > max returned bytes");
+}
+#[test]
+fn c18_pkg_length_2_pow_28_refused() {
+    // content of 2^28 bytes: the inclusive PkgLength (2^28 + 4) does not fit in 28 bits
+    let data = vec![0u8; (1usize << 28) - 4];
+    let b = BufferData::new(data);
+    let r = refuses(|| ser(&b));
+    match r {
+        Ok(()) => {}
+        Err(bytes) => {
+            let (len, w) = pkg_decode(&bytes[1..]);
+            panic!("object of {} bytes returned with a {}-byte PkgLength that decodes to {}", bytes.len() - 1, w, len);
+        }
+    }
+}
